@@ -104,10 +104,10 @@ def run(R):
         R.check("StopIteration" in arms and "GeneratorExit" in arms, "C01.FLOW-RESULT", driver.qualname + ":arms", R.site(driver, tr),
                 "the step's outcome is dispatched on StopIteration, GeneratorExit (AsyncTaskResult) and other exceptions",
                 "the step's handlers are %s" % sorted(arms))
-        completing = lambda c: q.call_name(c) in ("self._queue_exit", "self._accept_error", "self._queue_throw_error")
+        all_comp = ro.completing_calls(driver)
         for name, h in arms.items():
             hn = kit.one(dcfg.nodes_for(h), "handler node")
-            comp = [n for n, c in kit.call_sites(driver, completing) if any(c is x for x in ast.walk(h))]
+            comp = [n for n, c, kind, v in all_comp if any(c is x for x in ast.walk(h))]
             # every path through the handler passes a completing call; none passes two
             after = [n for n in dcfg.nodes if n.kind in ("stmt", "test") and n.ast is not None and not any(n.ast is x for x in ast.walk(tr)) and n.lineno and n.lineno > tr.end_lineno]
             p = dcfg.find_path([hn], after, N, cut_nodes=comp)
@@ -122,18 +122,20 @@ def run(R):
             R.check(bad is None, "C01.FLOW-RESULT", "%s:%s:once" % (driver.qualname, name), R.site(driver, h), "at most one completion per step", "two completions on one path")
         h = arms.get("StopIteration")
         if h is not None:
-            qe = [c for c in q.calls(h) if q.call_name(c) == "self._queue_exit"]
-            okv = len(qe) == 1 and isinstance(qe[0].args[0], ast.Name)
+            vals_ = [v for n, c, kind, v in all_comp if kind == "value" and any(c is x for x in ast.walk(h))]
+            okv = len(vals_) == 1 and isinstance(vals_[0], ast.Name)
             if okv:
-                vals = common.assigned_values(driver.node, qe[0].args[0].id)
+                vals = common.assigned_values(driver.node, vals_[0].id)
                 srcs = sorted(set(q.src(v) if k == "expr" else k for k, v in vals))
                 okv = srcs == sorted(["%s.value" % h.name, "None"])
+            elif len(vals_) == 1:
+                okv = q.src(vals_[0]) == "%s.value" % h.name
             R.check(okv, "C01.FLOW-RESULT", driver.qualname + ":return-value", R.site(driver, h), "`return x` completes the task with x (StopIteration.value)",
                     "the task's value is not StopIteration.value")
         h = arms.get("GeneratorExit")
         if h is not None:
-            qe = [q.src(c) for c in q.calls(h) if q.call_name(c) == "self._queue_exit"]
-            R.check("self._queue_exit(%s.result)" % h.name in qe, "C01.FLOW-RESULT", driver.qualname + ":result-value", R.site(driver, h),
+            vals_ = [q.src(v) for n, c, kind, v in all_comp if kind == "value" and any(c is x for x in ast.walk(h))]
+            R.check("%s.result" % h.name in vals_, "C01.FLOW-RESULT", driver.qualname + ":result-value", R.site(driver, h),
                     "result(x) completes the task with x (AsyncTaskResult.result)", "AsyncTaskResult.result is not the task's value")
             tst = [n for n in ast.walk(h) if isinstance(n, ast.Compare) and "AsyncTaskResult" in q.src(n)]
             R.check(bool(tst), "C01.FLOW-RESULT", driver.qualname + ":result-type", R.site(driver, h), "the AsyncTaskResult case is recognised by its type", "AsyncTaskResult is no longer recognised")
